@@ -11,7 +11,7 @@ for d in sorted(glob.glob(os.path.join(V, "refactor", "*", "meta.json"))):
     if os.path.exists(notes):
         txt = [l.strip() for l in open(notes) if l.strip() and not l.startswith("#")]
         what = " ".join(txt)[:260].replace("|", "/")
-    drift = sum(1 for c in m["checks"].values() if "drift=0," not in c.get("summary", "drift=0,"))
+    drift = sum(1 for c in m["checks"].values() if "drift=" in c.get("summary", "") and "drift=0," not in c["summary"])
     rows.append("| `%s` | %d | %s | %d | %d of %d | %s |" % (name, m.get("changed_lines", 0), "pass" if m.get("tests_pass") else "FAIL", m.get("alarms", -1),
                                                       drift, len(m["checks"]), what))
 with open(os.path.join(V, "refactor", "RESULTS.md"), "w") as f:
